@@ -52,6 +52,7 @@ type pending struct {
 	canary                  bool
 	nasserts                int // number of asserts visible to this obligation (all, in fact)
 	values                  []string
+	rets                    []string
 }
 
 type retSite struct {
@@ -736,5 +737,6 @@ func (g *Gen) finish(prelude string) []*core.Obl {
 		}
 		out = append(out, o)
 	}
+	g.annotateReplay(out)
 	return out
 }
